@@ -8,6 +8,17 @@ def hexs(b):
     if not b:
         return "-"
     if len(b) > 64:
+        if len(b) > 100000 and b.count(b[:1]) == len(b):
+            # one repeated byte: x * (31^(n-1) + ... + 31 + 1), by doubling
+            def geo(n):            # (sum_{i<n} 31^i, 31^n) mod 2^32
+                if n == 0:
+                    return 0, 1
+                s, p = geo(n // 2)
+                s, p = (s * (1 + p)) % 4294967296, (p * p) % 4294967296
+                if n % 2:
+                    s, p = (s * 31 + 1) % 4294967296, (p * 31) % 4294967296
+                return s, p
+            return "#%d#%d" % (len(b), (b[0] * geo(len(b))[0]) % 4294967296)
         h = 0
         for x in b:
             h = (h * 31 + x) % 4294967296
